@@ -2,12 +2,16 @@
    Proved on the step model: perform_vehicle_state_updates processes every vehicle of the state, the non-queued ones first,
    then the queued ones in ascending (enqueue_time, id) order — a total, transitive order whose key is injective on ids — so of
    two vehicles waiting for the same plug type the one that joined strictly earlier is always offered a freed plug first.
-   PARTIAL: "never leaves the queue while an earlier one is left waiting" additionally needs that the earlier vehicle's
-   own default transition succeeds when a plug is free (it can use that plug type — hypothesis can_use, DESIGN §5 C18);
-   that step is decided by correspondence + monitor c18_fifo. *)
+   C18_offered_in_queue_order (from any state satisfying the C02 counts invariant): while the queued vehicles are processed
+   no plug count ever grows (a queued vehicle's update leaves the stations alone or takes one plug), so if a vehicle finds a plug of
+   its type free at its turn, EVERY vehicle processed earlier in that queue found a plug of that type free at its own, earlier
+   turn; and (C18_offered_and_updated_leaves_queue) a vehicle that is offered the plug and whose update goes through has left the
+   queue and is charging.  Hence a vehicle never leaves the queue to charge while an earlier one is left waiting — unless the
+   earlier vehicle's OWN update was refused although the plug was free (it cannot use that plug type, lost access, ...).
+   PARTIAL: that last exception (hypothesis can_use) is not discharged by a theorem; correspondence + monitor c18_fifo. *)
 From Hive.Base Require Import Prelude.
 From Hive.Model Require Import Types KernelBase SimOps States Step.
-From Hive.Proofs Require Import Queue.
+From Hive.Proofs Require Import Queue VehFrame Macro CountInv QueueServe.
 From Coq Require Import Sorting.Permutation Sorting.Sorted.
 
 Theorem C18_order_is_others_then_queue : forall s, update_order s = other_part s ++ queued_part s.
@@ -20,5 +24,17 @@ Theorem C18_earlier_first : forall s u v l1 l2 l3, queued_part s = l1 ++ u :: l2
 Proof. exact earlier_is_processed_first. Qed.
 Theorem C18_key_injective : forall a b, queue_le a b = true -> queue_le b a = true -> v_id a = v_id b.
 Proof. exact queue_le_antisym. Qed.
+Theorem C18_offered_in_queue_order : forall env s l1 w l2 u l3 sid cid, vkeys s -> Inv_counts s ->
+  queued_part s = l1 ++ w :: l2 ++ u :: l3 ->
+  let s_w := pass_prefix env s (other_part s ++ l1) in
+  let s_u := pass_prefix env s (other_part s ++ l1 ++ w :: l2) in
+  forall cs_u, slook (stations s_u) sid cid = Some cs_u -> (0 < cs_avail cs_u)%Z ->
+  exists cs_w, slook (stations s_w) sid cid = Some cs_w /\ (0 < cs_avail cs_w)%Z.
+Proof. exact offered_in_queue_order. Qed.
+Theorem C18_offered_and_updated_leaves_queue : forall env vid qs qc t s s', vkeys s -> terminal env vid (ChargeQueueing qs qc t) s = true ->
+  vs_update env vid (ChargeQueueing qs qc t) s = Ok s' -> vstate_of s' vid = Some (ChargingStation qs qc).
+Proof. exact offered_and_updated_leaves_queue. Qed.
+Print Assumptions C18_offered_in_queue_order. Print Assumptions C18_offered_and_updated_leaves_queue.
+
 Print Assumptions C18_order_is_others_then_queue. Print Assumptions C18_everyone_processed.
 Print Assumptions C18_queue_sorted. Print Assumptions C18_earlier_first. Print Assumptions C18_key_injective.
